@@ -188,6 +188,22 @@ def e2_legacy(ck, mod, tier, parsed):
             st = 'unsat' if bad is None else ('sat' if bad[0] == 'sat' else 'unknown')
             ck.obligation('legacy Histogram auto range, %d values, all %d paths: %s' % (nvals, len(res), nm), st, dt, True, {'model': bad[1]} if bad else None)
             if st == 'sat': found.append((nm, nvals, bad[1], vs))
+    # legacy Normalize from an arbitrary state: integral one, ratios unchanged (bins are not integers after bond/angle scaling)
+    for n in ((2, 3) if tier == 'quick' else (2, 3, 4, 5)):
+        pdf = [z3.Real('b%d' % i) for i in range(n)]; iv = z3.Real('interval')
+        def body(it, n=n, pdf=pdf):
+            for b in pdf: it.assume(b >= 0)
+            it.assume(iv > 0); it.assume(sum(pdf[1:], pdf[0]) > 0)
+            pp = alloc_doubles(it, 'pdf', pdf); out = alloc_doubles(it, 'out', [F(0)] * n); it.call('@h_legacy_norm', [pp, n, iv, out]); return read_doubles(it, out, n)
+        res, stt = explore(mod, models.all_models(), body, parsed=parsed, max_paths=2000); ck.stubs |= stt['models_used']
+        tot = sum(pdf[1:], pdf[0])
+        bad = None; tsum = 0.0
+        for it, o in res:
+            r, dt, mdl = smt.check(list(it.pc) + [z3.Or([o[i] * tot * iv != pdf[i] for i in range(n)] + [sum(o[1:], o[0]) * iv != 1])], TO); tsum += dt
+            if r != 'unsat' and bad is None: bad = (r, mdl)
+        st = 'unsat' if bad is None else ('sat' if bad[0] == 'sat' else 'unknown')
+        ck.obligation('legacy Histogram::Normalize from an arbitrary state (%d real-valued bins, %d paths): integral = 1 and ratios unchanged' % (n, len(res)), st, tsum, True, {'model': bad[1]} if bad else None)
+        if st == 'sat': found.append(('Normalize: integral = 1 / ratios unchanged', n, bad[1], pdf))
     return found
 
 def check_c13(ck, tier, replay=None):
@@ -273,6 +289,14 @@ def replay_bins(meta):
 
 def replay_legacy(meta):
     mdl = meta['model'] or {}; n = meta['nvals']
+    if meta.get('clause', '').startswith('Normalize'):
+        bins = [_f(mdl.get('b%d' % i), 0.5) for i in range(n)]; iv = _f(mdl.get('interval'), 1.0)
+        src = os.path.join(common.workdir(), 'rep_legn.cc')
+        open(src, 'w').write('#include <cstdio>\n#include <cstdlib>\n#include "%s"\nint main(int c,char**a){ double v[8],o[8]; long n=c-2; for(long i=0;i<n;i++) v[i]=atof(a[i+2]); h_legacy_norm(v,n,atof(a[1]),o); double s=0; for(long i=0;i<n;i++) s+=o[i]; printf("%%.17g\\n", s*atof(a[1])); }\n' % common.harness_path(HARNESS))
+        b = common.native_build([src], 'C13_rep_legn', extra=['-I' + common.REPO], libs=[])
+        rc, so, se = common.run_native(b, args=[repr(iv)] + [repr(v) for v in bins])
+        integ = float(so.split()[0]) if so.split() else float('nan')
+        return not (abs(integ - 1.0) <= 1e-9), 'bins %s, interval %r: integral after Normalize = %r' % (bins, iv, integ)
     vals = [_f(mdl.get('d%d' % i)) for i in range(n)]
     src = os.path.join(common.workdir(), 'rep_leg.cc')
     open(src, 'w').write('#include <cstdio>\n#include <cstdlib>\n#include "%s"\nint main(int c,char**a){ double v[8],pdf[8],mm[3]; long n=c-1; for(long i=0;i<n;i++) v[i]=atof(a[i+1]); h_legacy(v,n,3,1,0,0,1,0,0,pdf,mm); printf("%%.17g %%.17g\\n",mm[0],mm[1]); }\n' % common.harness_path(HARNESS))
